@@ -441,6 +441,7 @@ func cmdCheck(args []string) int {
 	}
 	pf := &Portfolio{Dir: tmp, TimeoutMs: 10000, Solvers: []string{"cvc5", "z3-new", "z3"}, Seed: seed}
 	if *tier == "thorough" {
+		replayTimeout = "900s"
 		pf.TimeoutMs = 60000
 		pf.All = true
 	}
